@@ -12,6 +12,13 @@ from .threads import ThreadCfg, lock_kind
 USER_CODE = {"dispatch", "events_callback", "process_termination_callback", "on_any_event"}
 
 
+class _WithPrefix:
+    """a loop-body path seen together with the events that led into the loop(s) around it"""
+
+    def __init__(self, evs):
+        self.evs = evs
+
+
 def predicate_fields(P, cname: str, evs, w) -> set[str]:
     """The wait predicate as the waiter evaluates it: the attributes of `self` read by the tests made between the last lock
     boundary (acquire / an earlier wait) and the wait itself, on the iteration that waits.  A test made *before* the lock was
@@ -57,16 +64,18 @@ def monitor_discipline(ctx, RM, skip_modules=(), only_classes=None, announce_eve
                 except AnalysisError:
                     continue
 
-            def find(ps, stack, mname):
+            def find(ps, stack, mname, prefix):
                 for p in ps:
-                    for e in p.evs:
+                    for i_, e in enumerate(p.evs):
                         if e.kind == "wait" and not e.extra.get("timed"):
-                            waits.append((mname, e, list(stack), p))
+                            # what was tested since the last lock boundary includes tests made on the way into the loops around the
+                            # wait (a test the engine did not repeat because its outcome was still known is still a test made there)
+                            waits.append((mname, e, list(stack), _WithPrefix(prefix + p.evs)))
                         if e.kind == "loop":
-                            find(e.extra["paths"], stack + [e], mname)
+                            find(e.extra["paths"], stack + [e], mname, prefix + p.evs[:i_])
 
             for mname, ps in cpaths.items():
-                find(ps, [], mname)
+                find(ps, [], mname, [])
             seenw = set()
             pred_fields: set[str] = set()
             per_wait: dict[int, set] = {}
